@@ -1,1 +1,216 @@
-/-! # C19 — property theorems (not built yet) -/
+import RsMatterVerif.Lemmas.Cert
+/-!
+# C19 — a certificate chain is accepted exactly when it is valid under the Matter rules
+-/
+namespace C19
+open Cert
+
+theorem validateCase_none_iff (t : Time) (fabric : FabricView) (noc : Cert) :
+    validateCase t fabric noc none = .ok () ↔ CaseValid t fabric noc none := by
+  unfold validateCase CaseValid ChainValid pathOf
+  cases hn : nodeIdOf noc.subject with
+  | none => simp
+  | some n =>
+    cases hf : fabricIdOf noc.subject with
+    | none => simp
+    | some fid =>
+      by_cases hfe : fabric.fabricId = fid
+      · simp only [hfe, ne_eq, not_true_eq_false, ↓reduceIte, Option.isNone_some, Bool.false_eq_true]
+        rw [step_ok]
+        simp only [finalise_ok_iff]
+        simp [List.zipIdx, PositionOk, not_authority_of_node hn]
+        grind
+      · simp [hfe]; intros; omega
+
+theorem validateCase_some_iff (t : Time) (fabric : FabricView) (noc ic : Cert) :
+    validateCase t fabric noc (some ic) = .ok () ↔ CaseValid t fabric noc (some ic) := by
+  unfold validateCase CaseValid ChainValid pathOf
+  cases hn : nodeIdOf noc.subject with
+  | none => simp
+  | some n =>
+    cases hf : fabricIdOf noc.subject with
+    | none => simp
+    | some fid =>
+      by_cases hfe : fabric.fabricId = fid
+      · cases hif : icacOtherFabric ic fid with
+        | true =>
+          have : ¬ ∀ f ∈ fabricIdOf ic.subject, f = fid := by
+            rw [← icacOtherFabric_false_iff, hif]; simp
+          simp [hfe, hif]
+          intros; simpa using this
+        | false =>
+          have h3 : ∀ f, fabricIdOf ic.subject = some f → f = fid := by
+            simpa using (icacOtherFabric_false_iff ic fid).1 hif
+          simp only [hfe, hif, ne_eq, not_true_eq_false, ↓reduceIte, Option.isNone_some, Bool.false_eq_true]
+          rw [step_ok, step_ok]
+          simp only [finalise_ok_iff]
+          simp [List.zipIdx, PositionOk, not_authority_of_node hn]
+          grind
+      · simp [hfe]; intros; omega
+
+/-- **CASE, both shapes**: `CaseP::validate_certs` accepts exactly the chains that are valid for
+the addressed fabric. -/
+theorem validateCase_iff (t : Time) (fabric : FabricView) (noc : Cert) (icac : Option Cert) :
+    validateCase t fabric noc icac = .ok () ↔ CaseValid t fabric noc icac := by
+  cases icac with
+  | none => exact validateCase_none_iff t fabric noc
+  | some ic => exact validateCase_some_iff t fabric noc ic
+
+/-- **verify_iff_valid (CASE)**: the peer's chain is admitted (and a node id extracted for the
+session) if and only if it is valid under the Matter rules for the addressed fabric. -/
+theorem verify_iff_valid (t : Time) (fabric : FabricView) (noc : Cert) (icac : Option Cert) :
+    (∃ n, caseAccept t fabric noc icac = .ok n) ↔ CaseValid t fabric noc icac := by
+  unfold caseAccept
+  cases hv : validateCase t fabric noc icac with
+  | error e =>
+    have : ¬ CaseValid t fabric noc icac := by rw [← validateCase_iff, hv]; simp
+    simp [this]
+  | ok u =>
+    have hc : CaseValid t fabric noc icac := (validateCase_iff t fabric noc icac).1 hv
+    have hn := hc.1.2.2.2.2.2
+    cases h : nodeIdOf noc.subject with
+    | none => simp [h] at hn
+    | some n => simp [hc]
+
+/-- the session is bound to the node id the certificate carries -/
+theorem caseAccept_node (t : Time) (fabric : FabricView) (noc : Cert) (icac : Option Cert) (n : Nat)
+    (h : caseAccept t fabric noc icac = .ok n) : nodeIdOf noc.subject = some n := by
+  unfold caseAccept at h
+  cases hv : validateCase t fabric noc icac with
+  | error e => simp [hv] at h
+  | ok u =>
+    cases hn : nodeIdOf noc.subject with
+    | none => simp [hv, hn] at h
+    | some m => simp [hv, hn] at h; rw [h]
+
+/-! ## Installing credentials -/
+
+theorem validateInstall_iff (t : Time) (noc : Cert) (icac : Option Cert) (root : Cert) :
+    validateInstall t noc icac root = .ok () ↔
+      ChainValid t root noc icac ∧ ∀ ic ∈ icac, ic.akid ≠ ic.skid := by
+  unfold validateInstall ChainValid pathOf
+  cases hn : nodeIdOf noc.subject with
+  | none => simp
+  | some n =>
+    cases icac with
+    | none =>
+      simp only [Option.isNone_some, Bool.false_eq_true, ↓reduceIte]
+      rw [step_ok]
+      simp only [finalise_ok_iff]
+      simp [List.zipIdx, PositionOk, not_authority_of_node hn]
+      grind
+    | some ic =>
+      simp only [Option.isNone_some, Bool.false_eq_true, ↓reduceIte, isSelfSigned, isAuthority]
+      cases hs : ic.skid with
+      | none => simp [Issues, hs]
+      | some k =>
+        by_cases hak : ic.akid = some k
+        · simp [hak]; intros; rw [hs]
+        · have hb : (ic.akid == some k) = false := by simpa using hak
+          simp only [hb]
+          rw [step_ok, step_ok]
+          simp only [finalise_ok_iff]
+          simp [List.zipIdx, PositionOk, not_authority_of_node hn]
+          grind
+
+theorem any_conflict_false_iff (fabrics : List FabricEntry) (fid key : Nat) :
+    fabrics.any (fun f => fid == f.fabricId && key == f.rootPubKey) = false ↔
+      ∀ f ∈ fabrics, ¬ (f.fabricId = fid ∧ f.rootPubKey = key) := by
+  simp only [List.any_eq_false, Bool.and_eq_true, beq_iff_eq, not_and]
+  constructor
+  · intro h f hf h1 h2; exact h f hf h1.symm h2.symm
+  · intro h f hf h1 h2; exact h f hf h1.symm h2.symm
+
+/-- **verify_iff_valid (installing)**: `AddNOC` installs the credentials if and only if the chain
+is valid under the staged root, the leaf carries the key generated for this request, and the
+fabric does not exist already. -/
+theorem install_iff_valid (t : Time) (root : Cert) (csrKey : KeyId) (fabrics : List FabricEntry)
+    (noc : Cert) (icac : Option Cert) :
+    (∃ r, addNoc t root csrKey fabrics noc icac = .ok r) ↔
+      InstallValid t root csrKey fabrics noc icac := by
+  unfold addNoc InstallValid
+  cases hv : validateInstall t noc icac root with
+  | error e =>
+    have : ¬ (ChainValid t root noc icac ∧ ∀ ic ∈ icac, ic.akid ≠ ic.skid) := by
+      rw [← validateInstall_iff, hv]; simp
+    simp only [reduceCtorEq, exists_false, false_iff]
+    intro h; exact this ⟨h.1, h.2.1⟩
+  | ok u =>
+    have hc := (validateInstall_iff t noc icac root).1 hv
+    have hn := hc.1.2.2.2.2.2
+    by_cases hk : csrKey = noc.pubKey
+    · cases hf : fabricIdOf noc.subject with
+      | none => simp [hk]
+      | some fid =>
+        cases ha : fabrics.any (fun f => fid == f.fabricId && root.pubKey == f.rootPubKey) with
+        | true =>
+          have : ¬ ∀ f ∈ fabrics, ¬ (f.fabricId = fid ∧ f.rootPubKey = root.pubKey) := by
+            rw [← any_conflict_false_iff, ha]; simp
+          simp only [hk, ha, ne_eq, not_true_eq_false, ↓reduceIte, reduceCtorEq, exists_false, false_iff]
+          intro h
+          obtain ⟨_, _, _, fid', h1, h2⟩ := h
+          simp only [Option.some.injEq] at h1
+          subst h1
+          exact this h2
+        | false =>
+          have h2 := (any_conflict_false_iff fabrics fid root.pubKey).1 ha
+          cases h : nodeIdOf noc.subject with
+          | none => simp [h] at hn
+          | some n =>
+            simp only [hk, ha, ne_eq, not_true_eq_false, ↓reduceIte, Bool.false_eq_true, Except.ok.injEq, exists_eq', true_iff]
+            exact ⟨hc.1, hc.2, trivial, fid, rfl, h2⟩
+    · simp only [ne_eq, hk, not_false_eq_true, ↓reduceIte, reduceCtorEq, exists_false, false_iff]
+      intro h; exact hk h.2.2.1.symm
+
+/-- the new fabric takes the fabric id and node id of the installed certificate -/
+theorem addNoc_identity (t : Time) (root : Cert) (csrKey : KeyId) (fabrics : List FabricEntry)
+    (noc : Cert) (icac : Option Cert) (f n : Nat)
+    (h : addNoc t root csrKey fabrics noc icac = .ok (f, n)) :
+    fabricIdOf noc.subject = some f ∧ nodeIdOf noc.subject = some n := by
+  unfold addNoc at h
+  cases hv : validateInstall t noc icac root with
+  | error e => simp [hv] at h
+  | ok u =>
+    by_cases hk : csrKey = noc.pubKey
+    · cases hf : fabricIdOf noc.subject with
+      | none => simp [hv, hk, hf] at h
+      | some fid =>
+        by_cases ha : fabrics.any (fun f => fid == f.fabricId && root.pubKey == f.rootPubKey) = true
+        · simp [hv, hk, hf, ha] at h
+        · cases hm : nodeIdOf noc.subject with
+          | none => simp [hv, hk, hf, ha, hm] at h
+          | some m =>
+            simp [hv, hk, hf, ha, hm] at h
+            simp [h.1, h.2]
+    · simp [hv, hk] at h
+
+/-- `UpdateNOC`: accepted iff the chain is valid under the fabric's own root, carries the fresh
+key and the id of the fabric being updated. -/
+theorem update_iff_valid (t : Time) (fabric : FabricView) (csrKey : KeyId) (noc : Cert)
+    (icac : Option Cert) :
+    (∃ r, updateNoc t fabric csrKey noc icac = .ok r) ↔ UpdateValid t fabric csrKey noc icac := by
+  unfold updateNoc UpdateValid
+  cases hv : validateInstall t noc icac fabric.root with
+  | error e =>
+    have : ¬ (ChainValid t fabric.root noc icac ∧ ∀ ic ∈ icac, ic.akid ≠ ic.skid) := by
+      rw [← validateInstall_iff, hv]; simp
+    simp only [reduceCtorEq, exists_false, false_iff]
+    intro h; exact this ⟨h.1, h.2.1⟩
+  | ok u =>
+    have hc := (validateInstall_iff t noc icac fabric.root).1 hv
+    have hn := hc.1.2.2.2.2.2
+    by_cases hk : csrKey = noc.pubKey
+    · cases hf : fabricIdOf noc.subject with
+      | none => simp [hk]
+      | some fid =>
+        by_cases hfe : fid = fabric.fabricId
+        · cases h : nodeIdOf noc.subject with
+          | none => simp [h] at hn
+          | some n =>
+            simp [hk, hfe, hc.1]
+            exact fun ic hic => hc.2 ic (by simp [hic])
+        · simp [hk, hfe]
+    · simp only [ne_eq, hk, not_false_eq_true, ↓reduceIte, reduceCtorEq, exists_false, false_iff]
+      intro h; exact hk h.2.2.1.symm
+
+end C19
